@@ -105,8 +105,28 @@ static void case_convert(ByteSource& in, CaseInfo& ci) {
   }
 }
 static void check(ByteSource& in, CaseInfo& ci) { switch (in.pick({6, 4, 3})) { case 0: case_arith(in, ci); break; case 1: case_unary(in, ci); break; default: case_convert(in, ci); break; } }
+// ---- exhaustive sweep: x = n1/d1 with n1 a signed and d1 a positive two-limb palette value, y from a set of 48 small and boundary rationals ----
+struct QQ { mpq_t q; QQ() { mpq_init(q); } ~QQ() { mpq_clear(q); } };
+static std::vector<Frac> sweep_ys() { std::vector<Frac> v; static const long long N[] = {0, 1, -1, 2, -3, 6}; static const long long D[] = {1, 2, 3, 6}; for (long long n : N) for (long long d : D) v.push_back(canon(Int(n), Int(d)));
+  static const uint64_t L[] = {0x7fffffffffffffffull, 0x8000000000000000ull, 0xffffffffffffffffull}; for (uint64_t a : L) for (uint64_t b : L) { v.push_back(canon(Int::from_u64(a), Int::from_u64(b) + Int(1))); v.push_back(canon(-(ref::pow2(64) + Int::from_u64(a)), Int::from_u64(b))); }
+  v.push_back(canon(ref::pow2(64), Int(3))); v.push_back(canon(Int(3), ref::pow2(64))); v.push_back(canon(ref::pow2(128) - Int(1), ref::pow2(64) - Int(1))); v.push_back(canon(Int(-1), ref::pow2(127))); v.push_back(canon(ref::pow2(64) + Int(1), ref::pow2(64) - Int(1))); v.push_back(canon(Int(5), ref::pow2(64) + Int(1))); return v; }
+static uint64_t sweep_count() { return 72ull * 35ull * 48ull; }
+static void sweep_item(uint64_t i, CaseInfo& ci) {
+  static const std::vector<Frac> YS = sweep_ys(); uint64_t in_ = i % 72, id = (i / 72) % 35, iy = i / (72 * 35);
+  Int n = palette_int(in_ % 36, 2); if (in_ >= 36) n = -n; Int d = palette_int(1 + id, 2); Frac x = canon(n, d), y = YS[iy % YS.size()];
+  ci.d("x=%s/%s y=%s/%s", show(x.n).c_str(), show(x.d).c_str(), show(y.n).c_str(), show(y.d).c_str());
+  QQ a, b, r; set_q(a.q, x); set_q(b.q, y);
+  mpq_add(r.q, a.q, b.q); require_canonical_eq("mpq_add", r.q, canon(x.n * y.d + y.n * x.d, x.d * y.d)); mpq_sub(r.q, a.q, b.q); require_canonical_eq("mpq_sub", r.q, canon(x.n * y.d - y.n * x.d, x.d * y.d));
+  mpq_mul(r.q, a.q, b.q); require_canonical_eq("mpq_mul", r.q, canon(x.n * y.n, x.d * y.d)); if (!y.n.is_zero()) { mpq_div(r.q, a.q, b.q); require_canonical_eq("mpq_div", r.q, canon(x.n * y.d, x.d * y.n)); }
+  { mpq_set(r.q, a.q); mpq_add(r.q, r.q, b.q); require_canonical_eq("mpq_add in place (rop = op1)", r.q, canon(x.n * y.d + y.n * x.d, x.d * y.d)); mpq_set(r.q, b.q); mpq_sub(r.q, a.q, r.q); require_canonical_eq("mpq_sub in place (rop = op2)", r.q, canon(x.n * y.d - y.n * x.d, x.d * y.d));
+    mpq_set(r.q, b.q); mpq_mul(r.q, a.q, r.q); require_canonical_eq("mpq_mul in place (rop = op2)", r.q, canon(x.n * y.n, x.d * y.d)); }
+  int c = ref::cmp(x.n * y.d, y.n * x.d); REQUIRE(((mpq_cmp(a.q, b.q) > 0) - (mpq_cmp(a.q, b.q) < 0)) == ((c > 0) - (c < 0)), "mpq_cmp"); REQUIRE((mpq_equal(a.q, b.q) != 0) == (c == 0), "mpq_equal");
+  if (iy == 0) { mpq_neg(r.q, a.q); require_canonical_eq("mpq_neg", r.q, Frac{-x.n, x.d}); mpq_abs(r.q, a.q); require_canonical_eq("mpq_abs", r.q, Frac{x.n.abs(), x.d}); if (!x.n.is_zero()) { mpq_inv(r.q, a.q); require_canonical_eq("mpq_inv", r.q, canon(x.d, x.n)); mpq_set(r.q, a.q); mpq_inv(r.q, r.q); require_canonical_eq("mpq_inv in place", r.q, canon(x.d, x.n)); }
+    static const unsigned SH[] = {0, 1, 63, 64, 65, 128}; for (unsigned sh : SH) { mpq_mul_2exp(r.q, a.q, sh); require_canonical_eq("mpq_mul_2exp", r.q, canon(ref::shl(x.n, sh), x.d)); mpq_div_2exp(r.q, a.q, sh); require_canonical_eq("mpq_div_2exp", r.q, canon(x.n, ref::shl(x.d, sh))); mpq_set(r.q, a.q); mpq_div_2exp(r.q, r.q, sh); require_canonical_eq("mpq_div_2exp in place", r.q, canon(x.n, ref::shl(x.d, sh))); } }
+}
 namespace eng {
 PropDef g_prop = {"C12",
   "Cases: mpq_add/sub/mul/div on canonical operands with planted common factors between the denominators and between the cross terms (each gcd trivial / small / multi-limb), integers, zero, +-1, powers of two, y=x, y=-x, y=1/x, every alias pattern incl. all three the same object; mpq_inv/neg/abs/mul_2exp/div_2exp/set/swap out of place and in place (shift counts 0,1,63,64,65,128,.., beyond the operand); mpq_canonicalize on arbitrary num/den (den<0, common factors, zero numerator); mpq_set_d (finite doubles incl. subnormals), mpq_set_f (hand-built mpf incl. low zero limbs), mpq_set_z, mpq_set_si/ui (+canonicalize), mpq_set_num/den, mpq_get_num/den. Oracle: refint fraction arithmetic reduced with refint gcd; the result must equal it as a PAIR (den>0, coprime, 0=0/1) and be limb-wise well formed. Non-trivial: both operands non-integers / an operand >= 2 limbs. Distinct = hash of all decoded choices.",
-  check, nullptr, {"gcd(den1,den2)>1", "gcd(num1,den2)>1", "gcd(num2,den1)>1", "result_zero", "result_integer", "inplace", "2exp:shift>=64_with_zero_low_limb", "canonicalize:den_negative", "set_d:subnormal_or_zero", "set_f:low_zero_limbs"}};
+  check, nullptr, {"gcd(den1,den2)>1", "gcd(num1,den2)>1", "gcd(num2,den1)>1", "result_zero", "result_integer", "inplace", "2exp:shift>=64_with_zero_low_limb", "canonicalize:den_negative", "set_d:subnormal_or_zero", "set_f:low_zero_limbs"}, nullptr, sweep_count, sweep_item,
+  "x = n/d for every signed two-limb numerator and positive two-limb denominator with limbs from {0,1,2^63-1,2^63,2^64-2,2^64-1} (2520 fractions, canonicalised) against 48 small and limb-boundary rationals: mpq_add/sub/mul/div (also in place on either operand), mpq_cmp, mpq_equal; per x: neg, abs, inv (also in place), mul_2exp/div_2exp by 0,1,63,64,65,128"};
 }
